@@ -135,6 +135,15 @@ def probe_portfolio(spec):
                 sd['solve'] = 'optimal'
                 sd['x'] = [float(v) for v in res.x]
                 sd['value'] = float(res.value)
+                # every interval optimised on its own (C14: the split value is the sum of the interval optima)
+                iv = []
+                for p in ops.ops:
+                    try:
+                        r1 = p.optimize()
+                        iv.append(None if isinstance(r1, str) else float(r1.value))
+                    except Exception:
+                        iv.append(None)
+                sd['interval_values'] = iv
                 sd['duals'] = dump_duals(res.duals)
                 try:
                     sd['out'] = tables(portf2, ops, res)
